@@ -186,7 +186,8 @@ def register(reg, prop):
                 + [corr_clause("result._results", "SITE", "perm", out_first=True)])
 
     # fixed size 4 (decisive counter-models): the atom order, position by position
-    reported4 = ["len(result.atom_order) == 4"] + [f"result.atom_order[{a}] == ids[{a}]" for a in range(4)]
+    reported4 = ["len(result.atom_order) == 4 and "
+                 + " and ".join(f"result.atom_order[{a}] == ids[{a}]" for a in range(4))]
     for n in (None, 4):
         tag = "" if n is None else "[N=4]"
         reg.add_contract(Contract(
